@@ -263,6 +263,9 @@ pub fn replay(case: &serde_json::Value) -> i32 {
     if case["part"] == "b" {
         return super::c12b::replay(case);
     }
+    if case["part"] == "f" && super::c12c::replay_f(case) {
+        return 1;
+    }
     if case["part"] == "c" && super::c12c::replay(case) {
         return 1;
     }
@@ -374,14 +377,16 @@ pub fn run(tier: Tier) -> i32 {
     let (c_hists, c_cmp) = super::c12c::run(&ctx);
     let d_hists = super::c12c::run_d(&ctx);
     let e_scripts = super::c12c::run_e(&ctx);
+    let f_runs = super::c12c::run_f(&ctx);
     let cov = json!({
         "part_d_suspension_histories": d_hists,
         "part_e_failed_bg_scripts": e_scripts,
+        "part_f_jobs_report_format_runs": f_runs,
         "part_c_interactive_histories": c_hists,
         "part_c_announcements_compared": c_cmp,
         "states": seen.len() as u64 + b.states,
         "transitions": transitions + b.transitions,
-        "traces_validated_against_impl": transitions + b.transitions + c_hists + d_hists + e_scripts,
+        "traces_validated_against_impl": transitions + b.transitions + c_hists + d_hists + e_scripts + f_runs,
         "part_a_joblist_states": seen.len(),
         "part_a_joblist_transitions": transitions,
         "part_b_shell_job_control": b.json,
